@@ -25,6 +25,7 @@ PRE = ("From Coq Require Import PrimFloat QArith.\nFrom EsVerif.Common Require I
 MAXBIN = 400
 # once fixes/C14/0003 is in /repo its witness is moved into the corpus; from then on float32 scalar options are also
 # generated next to plain python numbers
+SMALL_INT_NBIN = os.path.exists(os.path.join(core.VERIF, "corpus", "C14", "fixed-nbin-small-int-type.json"))
 F32_WEAK_MIX = os.path.exists(os.path.join(core.VERIF, "corpus", "C14", "fixed-float32-scalar-limits.json"))
 
 
@@ -280,7 +281,11 @@ def _num_form(r, v, kind):
     import numpy as np
     if v is None:
         return None
-    if kind == "count":                       # nbin, nperbin
+    if kind == "nbin":
+        # np.uint8 only once fixes/C14/0004 is in /repo (before it, len(sort index) + nbin + 1 wraps around in uint8
+        # and chist writes beyond the reverse-index array: heap corruption, see docs/reports/C14.md)
+        opts = ["py", "py", "np.int64", "np.int32"] + (["np.uint8"] if 0 <= v < 256 and SMALL_INT_NBIN else [])
+    elif kind == "count":                     # nperbin
         opts = ["py", "py", "np.int64", "np.int32"] + (["np.uint8"] if 0 <= v < 256 else [])
     elif isinstance(v, int):
         opts = ["py", "py", "np.int64", "np.float64", "0d"]
@@ -307,7 +312,7 @@ def _mk(r, fam, x, y, w, mode, spec, lo, hi, rev=None, mergelast=True, api=None,
         c["forms"] = {"x": _fit_form(r, x, "x"), "y": None if y is None else _fit_form(r, y, "y"),
                       "w": None if w is None else _fit_form(r, w, "w")}
         c["numforms"] = {"min": _num_form(r, lo, "value"), "max": _num_form(r, hi, "value"),
-                         "spec": _num_form(r, spec, "value" if mode == "binsize" else "count")}
+                         "spec": _num_form(r, spec, "value" if mode == "binsize" else "nbin" if mode == "nbin" else "count")}
         # keyword style: defaults omitted or spelled out; None spelled out; a previous call on the same object
         c["kw"] = {"rev_omit": (not rev) and r.random() < 0.5, "mergelast_omit": mergelast and r.random() < 0.5,
                    "none_explicit": r.random() < 0.4, "calc_stats_explicit": r.random() < 0.3}
@@ -657,7 +662,13 @@ def _classify(c, out):
         return fam
     if c["w"] is None or out[0] != "ok" or not out[1]["rows"]:
         return None
-    o = out[1]
+    try:
+        return _classify_single(c, out[1])
+    except (IndexError, KeyError, ValueError, ZeroDivisionError):      # a malformed output belongs to no known class
+        return None
+
+
+def _classify_single(c, o):
     rev, rows = o["rev"], o["rows"]
     wh = 8 if c["y"] is not None else 4
     cls = None
